@@ -45,6 +45,7 @@ func vCrash()
 func vCatchCrash(f func()) bool
 func vIsSym(x any) bool
 func vHang(what string)
+func vNative() bool
 `
 
 // Edit is a textual mutation of a repository file, applied in the overlay only.
